@@ -67,12 +67,23 @@ func divViolation(rc *RunCtx, o *Omni) *Violation {
 }
 
 func stripDigits(s string) string {
+	// drop decimal digits and runs of 6 or more hex characters (addresses, hashes, keys)
 	b := make([]byte, 0, len(s))
-	for i := 0; i < len(s); i++ {
-		if (s[i] >= '0' && s[i] <= '9') || (s[i] >= 'a' && s[i] <= 'f' && i+1 < len(s) && isHex(s[i+1]) && i > 0 && isHex(s[i-1])) {
+	for i := 0; i < len(s); {
+		j := i
+		for j < len(s) && isHex(s[j]) {
+			j++
+		}
+		if j-i >= 6 {
+			i = j
+			continue
+		}
+		if s[i] >= '0' && s[i] <= '9' {
+			i++
 			continue
 		}
 		b = append(b, s[i])
+		i++
 	}
 	return string(b)
 }
